@@ -14,7 +14,6 @@ CONSTANTS
   DialFails = FALSE
   SfScripted = TRUE
   EnvLite = TRUE
-  AsIs_Spin = FALSE
   AsIs_SharedConfig = TRUE
   Mut = "none"
 SPECIFICATION GenSpec
